@@ -12,6 +12,8 @@ pub struct Rec {
     pub bad: bool,
     /// the record has no GT key at all: FORMAT is DP, every sample column holds a depth
     pub nogt: bool,
+    /// the record lists ONE ALT allele whatever its calls refer to
+    pub short_alt: bool,
     pub gt: std::collections::BTreeMap<String, String>,
 }
 
@@ -24,6 +26,7 @@ pub fn recs_from_json(v: &Value) -> Vec<Rec> {
                     pos: r["pos"].as_u64().unwrap(),
                     bad: r["bad"].as_bool().unwrap_or(false),
                     nogt: r["nogt"].as_bool().unwrap_or(false),
+                    short_alt: r["short_alt"].as_bool().unwrap_or(false),
                     gt: r["gt"]
                         .as_object()
                         .unwrap()
@@ -63,7 +66,7 @@ pub fn vcf_record(cols: &[String], r: &Rec, index: usize, extra: bool) -> String
         .unwrap_or(0);
     let alts = ["C", "G", "T", "AA", "AC", "AG"];
     // a site without any ALT allele in the calls is written with ALT "." every other time (invariant-site style)
-    let n_alt = if max_allele == 0 && index % 2 == 0 { 0 } else { max_allele.max(1) };
+    let n_alt = if r.short_alt { 1 } else if max_allele == 0 && index % 2 == 0 { 0 } else { max_allele.max(1) };
     let alt: Vec<&str> = if n_alt == 0 { vec!["."] } else { alts.iter().take(n_alt as usize).copied().collect() };
     let pos = if r.bad && index % 2 == 0 { "notanumber".to_string() } else { r.pos.to_string() };
     let mut s = format!(
@@ -219,7 +222,7 @@ pub fn own_bcf(cols: &[String], recs: &[Rec]) -> Vec<u8> {
             .iter()
             .map(|c| parse_gt(r.gt.get(c).map(|s| s.as_str()).unwrap_or("./.")))
             .collect();
-        let max_allele = if r.nogt { 1 } else { calls.iter().flatten().filter_map(|(a, _)| *a).max().unwrap_or(1).max(1) };
+        let max_allele = if r.nogt || r.short_alt { 1 } else { calls.iter().flatten().filter_map(|(a, _)| *a).max().unwrap_or(1).max(1) };
         let ploidy = calls.iter().map(|c| c.len()).max().unwrap_or(2).max(1);
         let alts = ["C", "G", "T", "AA", "AC", "AG"];
         let mut shared = Vec::new();
